@@ -143,16 +143,27 @@ def run_impl(module, payload, timeout=600):
     )
 
 
-def run_impl_parallel(module, cases, key="cases", workers=8, timeout=900):
+def run_impl_parallel(module, cases, key="cases", workers=8, timeout=900, crash_ok=False):
     """Split `cases` over several concurrent driver processes (results keep the
-    order of the cases)."""
+    order of the cases).  With crash_ok a driver process that dies or hangs (the
+    implementation took the interpreter down) yields {"outcome": "crash"} for its
+    cases instead of a harness error."""
     from concurrent.futures import ThreadPoolExecutor
     if not cases:
         return []
     workers = max(1, min(workers, len(cases)))
     chunks = [cases[i::workers] for i in range(workers)]
+
+    def one(ch):
+        try:
+            return run_impl(module, {key: ch}, timeout=timeout)["results"]
+        except HarnessError as e:
+            if not crash_ok:
+                raise
+            return [{"id": c.get("id"), "outcome": "crash", "msg": "the interpreter running the implementation died or hung: %s" % str(e)[:300]}
+                    for c in ch]
     with ThreadPoolExecutor(workers) as ex:
-        outs = list(ex.map(lambda ch: run_impl(module, {key: ch}, timeout=timeout)["results"], chunks))
+        outs = list(ex.map(one, chunks))
     res = [None] * len(cases)
     for w, out in enumerate(outs):
         for j, r in enumerate(out):
